@@ -131,3 +131,60 @@ Proof.
       rewrite app_length. cbn [length]. lia. }
     apply (sim_a_step c _ _ v Hs). exact H1.
 Qed.
+
+Section ExtendsW.
+  Context {A : Arith}.
+
+  Definition sim_w (s1 s2 : hddmw_st A) : Prop :=
+    wn s1 = wn s2 /\ wtotal s1 = wtotal s2 /\ winc1 s1 = winc1 s2 /\ winc2 s1 = winc2 s2 /\
+    winc_cut s1 = winc_cut s2.
+
+  Lemma sim_w_step (c : hddmw_cfg A) s1 s2 v : sim_w s1 s2 ->
+    (wdrift (hddmw_step (one_sided_w c) s1 v) = true -> wdrift (hddmw_step (two_sided_w c) s2 v) = true) /\
+    (wdrift (hddmw_step (two_sided_w c) s2 v) = false ->
+     sim_w (hddmw_step (one_sided_w c) s1 v) (hddmw_step (two_sided_w c) s2 v)).
+  Proof.
+    intros (Hn & Ht & H1 & H2 & Hc).
+    unfold hddmw_step.
+    cbn [hw_two hw_lambda hw_min hw_alpha_d hw_alpha_w one_sided_w two_sided_w].
+    rewrite Hn, Ht, H1, H2, Hc.
+    destruct (lt_opt _ (winc_cut s2)); destruct (gt_opt _ (wdec_cut s2));
+      destruct (hw_min c <=? wn s2 + 1)%Z;
+      try (split; [cbn [wdrift]; discriminate | intros _; repeat split]).
+    all: repeat match goal with
+         | |- context [mcd_check ?a ?b ?d] => destruct (mcd_check a b d)
+         end;
+      cbn [orb wdrift];
+      (split; [first [reflexivity | discriminate] | first [discriminate | intros _; repeat split]]).
+  Qed.
+
+  Lemma sim_w_run (c : hddmw_cfg A) (vs : list (num A)) :
+    (forall k, (k <= length vs)%nat -> wdrift (wrun (two_sided_w c) (firstn k vs)) = false) ->
+    sim_w (wrun (one_sided_w c) vs) (wrun (two_sided_w c) vs).
+  Proof.
+    induction vs as [|v vs IH] using rev_ind; intros H.
+    - repeat split.
+    - rewrite !wrun_snoc.
+      assert (Hs : sim_w (wrun (one_sided_w c) vs) (wrun (two_sided_w c) vs)).
+      { apply IH. intros k Hk. rewrite <- (firstn_snoc_le vs v k Hk). apply H.
+        rewrite app_length. cbn [length]. lia. }
+      apply (sim_w_step c _ _ v Hs).
+      rewrite <- wrun_snoc. rewrite <- (firstn_all (vs ++ [v])). apply H. lia.
+  Qed.
+End ExtendsW.
+
+Definition no_alarm_before_w {A} (c : hddmw_cfg A) (vs : list (num A)) : Prop :=
+  forall k, (k < length vs)%nat -> wdrift (wrun (two_sided_w c) (firstn k vs)) = false.
+
+Theorem hddmw_two_sided_extends : forall (A : Arith) (c : hddmw_cfg A) (vs : list (num A)),
+  no_alarm_before_w c vs ->
+  wdrift (wrun (one_sided_w c) vs) = true -> wdrift (wrun (two_sided_w c) vs) = true.
+Proof.
+  intros A c vs. destruct vs as [|v vs _] using rev_ind; intros Hno H1.
+  - cbn in H1. discriminate.
+  - rewrite wrun_snoc in *.
+    assert (Hs : sim_w (wrun (one_sided_w c) vs) (wrun (two_sided_w c) vs)).
+    { apply sim_w_run. intros k Hk. rewrite <- (firstn_snoc_le vs v k Hk). apply Hno.
+      rewrite app_length. cbn [length]. lia. }
+    apply (sim_w_step c _ _ v Hs). exact H1.
+Qed.
